@@ -255,6 +255,17 @@ func runC07(b *mon.B) {
 					}
 				}
 			}
+			if !dead && rogue == "" && k%3 == 0 {
+				// the id of a session that is over (nothing registered for it any more) comes back
+				// with number 1: an acceptable request like any other
+				for si := range sids {
+					if _, open := rc.last[sids[si]]; !open && pos[si] > 0 {
+						h := rfc8907.Header{Major: 0xc, Type: 2, Seq: 1, Session: sids[si]}
+						play("author/session-id-reused", "reuse-after-"+recs[si].Kind, h, bAuthorRequest(6, 1, 1, 1, "alice", "p", "r", "service=shell", "cmd=show", "cmd-arg=version"), true)
+						break
+					}
+				}
+			}
 			if !rc.c.Closed() {
 				rc.c.EOF()
 			}
